@@ -142,6 +142,14 @@ pub fn take() -> Vec<Event> {
         .unwrap_or_default()
 }
 
+/// Number of recorded events of `kind` so far (0 unless recording).
+pub fn count(kind: u32) -> usize {
+    LOG.lock()
+        .unwrap_or_else(|e| e.into_inner())
+        .as_ref()
+        .map_or(0, |v| v.iter().filter(|e| e.kind == kind).count())
+}
+
 /// Record an event (no-op unless recording).
 pub fn emit(kind: u32, a: u64, b: i64) {
     let mut log = LOG.lock().unwrap_or_else(|e| e.into_inner());
